@@ -328,3 +328,6 @@ Proof. intro st. split; vm_compute; reflexivity. Qed.
 
 Lemma merge_copies : merge_copies_ok = true.
 Proof. vm_compute. reflexivity. Qed.
+
+Lemma env_reads_all_ok : env_reads_ok = true.
+Proof. vm_compute. reflexivity. Qed.
